@@ -262,7 +262,7 @@ def anonBody (tbl : List TemplateSig) (va : Option Expr) (m : Meta) (label id : 
   match lookupT tbl id with
   | none => .error (m, s!"The template `{id}` does not exist.")
   | some t =>
-    let idAnon := id ++ "@" ++ label
+    let idAnon := id ++ "#" ++ label
     let decl0 : Stmt := match va with
       | none => .decl m .component idAnon .nil
       | some v => .decl m .anon idAnon (.cons v .nil)
